@@ -18,6 +18,7 @@ from harness.drivers.c07 import rename, names_in, has_pow, ODD_NAMES, EXCLUDED, 
 from pysmt.smtlib.parser import SmtLibParser
 from pysmt.smtlib.script import smtlibscript_from_formula
 from pysmt.parsing import HRParser
+from pysmt.parsing import parse as hr_shortcut
 
 
 def cmd_records(script):
@@ -117,6 +118,18 @@ def run(ck):
                 except Exception as ex:
                     hr_unparsed[t.node_type()] = hr_unparsed.get(t.node_type(), 0) + 1
                     continue          # outside the human-readable parser's fragment
+                # the module-level shortcut parses in the CURRENT environment (which changes with every variant)
+                try:
+                    g_short = hr_shortcut(s1)
+                    if g_short is not g:
+                        ev["exc"] = "ShortcutDiffers: pysmt.parsing.parse returned another object than HRParser(env).parse"
+                except Exception as ex:
+                    ev["exc"] = "ShortcutRaises %s: %s" % (type(ex).__name__, str(ex)[:100])
+                if ev["exc"]:
+                    eid += 1
+                    ck.count()
+                    evs.append(ev)
+                    continue
                 ev["parsed"] = term_io.export(g)
                 ev["toks1"] = [x for x in re.findall(r"[^\s()]+|[()]", s1) if x not in "()"]
                 ev["toks2"] = [x for x in re.findall(r"[^\s()]+|[()]", g.serialize()) if x not in "()"]
